@@ -18,6 +18,7 @@ import (
 	"reflect"
 	"sort"
 	"strings"
+	"syscall"
 	"time"
 
 	"github.com/containerd/containerd/v2/core/mount"
@@ -246,15 +247,45 @@ func (w *World) Exec(st Step) (res *Result) {
 	return res
 }
 
-// Dispose releases the bolt handle and deletes the root directory.
+// leakBudget: how many bolt handles may be abandoned instead of closed. Closing
+// a bolt database munmaps its file mapping, which is disproportionately expensive
+// on the (virtualised) sandbox; an abandoned handle costs one descriptor and one
+// small mapping until the worker process exits. Teardown is not part of any
+// checked history (Close is an explicit operation of the alphabet).
+var leakBudget = func() int {
+	var lim syscall.Rlimit
+	if err := syscall.Getrlimit(syscall.RLIMIT_NOFILE, &lim); err != nil {
+		return 0
+	}
+	if lim.Cur < lim.Max {
+		lim.Cur = lim.Max
+		syscall.Setrlimit(syscall.RLIMIT_NOFILE, &lim)
+		syscall.Getrlimit(syscall.RLIMIT_NOFILE, &lim)
+	}
+	n := int(lim.Cur) - 512
+	if n > 24000 {
+		n = 24000 // stay well below vm.max_map_count
+	}
+	if n < 0 || os.Getenv("SNAPX_CLOSE_ALWAYS") != "" {
+		n = 0
+	}
+	return n
+}()
+
+// Dispose deletes the root directory and releases (or abandons, see leakBudget)
+// the bolt handle.
 func (w *World) Dispose() {
 	if w.Sn != nil && !w.Closed {
-		w.FS.Begin("dispose", nil)
-		func() {
-			defer func() { recover() }()
-			w.Sn.Close()
-		}()
-		w.FS.End()
+		if leakBudget > 0 {
+			leakBudget--
+		} else {
+			w.FS.Begin("dispose", nil)
+			func() {
+				defer func() { recover() }()
+				w.Sn.Close()
+			}()
+			w.FS.End()
+		}
 		w.Closed = true
 	}
 	os.RemoveAll(w.Root)
@@ -598,7 +629,9 @@ func NormPaths(root string, meta *Meta, s string) string {
 	for id := range meta.ByID {
 		ids = append(ids, id)
 	}
-	sort.Slice(ids, func(i, j int) bool { return len(ids[i]) > len(ids[j]) || (len(ids[i]) == len(ids[j]) && ids[i] < ids[j]) })
+	sort.Slice(ids, func(i, j int) bool {
+		return len(ids[i]) > len(ids[j]) || (len(ids[i]) == len(ids[j]) && ids[i] < ids[j])
+	})
 	for _, id := range ids {
 		s = strings.ReplaceAll(s, filepath.Join(root, "snapshots", id)+"/", "{"+meta.ByID[id].Key+"}/")
 	}
@@ -692,17 +725,87 @@ func ReplayWorld(scratch string, async bool, hist []Step) (*World, error) {
 	return w, nil
 }
 
-// RunTransition replays hist on a fresh root and executes step with full observation.
-func RunTransition(scratch string, async bool, hist []Step, step Step, devsBefore int) (*Trans, error) {
-	w, err := ReplayWorld(scratch, async, hist)
+// Session executes steps from one state (history). Every step conceptually runs
+// on a fresh replay of the history; as an optimisation the replayed world is kept
+// for the next step when the step provably left it in the identical state: the
+// byte-identical root directory tree (including metadata.db) and the identical
+// backend mount table, not closed, no panic. (The snapshotter object holds no
+// other mutable state.) Set SNAPX_NO_REUSE=1 to replay for every step.
+type Session struct {
+	Scratch string
+	Async   bool
+	Hist    []Step
+	Devs    int // scripted failures used by Hist
+
+	w        *World
+	pre      *Meta
+	preHash  string
+	preTable string
+	Replays  int
+}
+
+func tableString(root string, t map[string][]recfs.MountRec) string {
+	var parts []string
+	for mp, recs := range t {
+		rel, _ := filepath.Rel(root, mp)
+		parts = append(parts, rel+"="+mountsDesc(recs))
+	}
+	sort.Strings(parts)
+	return strings.Join(parts, ";")
+}
+
+// World returns the replayed world (replaying if necessary).
+func (s *Session) World() (*World, error) {
+	if s.w != nil {
+		return s.w, nil
+	}
+	w, err := ReplayWorld(s.Scratch, s.Async, s.Hist)
 	if err != nil {
 		return nil, err
 	}
-	defer w.Dispose()
-	t := &Trans{Async: async, Hist: hist, Step: step, Root: w.Root, Devs: devsBefore + len(step.Fails)}
-	if t.Pre, err = w.Meta(); err != nil {
+	s.Replays++
+	if s.pre, err = w.Meta(); err != nil {
+		w.Dispose()
 		return nil, fmt.Errorf("reading metadata before the step: %w", err)
 	}
+	s.preHash = TreeHash(w.Root)
+	s.preTable = tableString(w.Root, w.FS.Table())
+	s.w = w
+	return w, nil
+}
+
+// Pre is the metadata of the session's state.
+func (s *Session) Pre() *Meta { return s.pre }
+
+// Done is called after a step ran on the world: keep it if untouched, else drop it.
+func (s *Session) Done(panicked bool) {
+	w := s.w
+	if w == nil {
+		return
+	}
+	if os.Getenv("SNAPX_NO_REUSE") == "" && !panicked && !w.Closed && TreeHash(w.Root) == s.preHash && tableString(w.Root, w.FS.Table()) == s.preTable {
+		return
+	}
+	w.Dispose()
+	s.w = nil
+}
+
+// Close disposes of the world.
+func (s *Session) Close() {
+	if s.w != nil {
+		s.w.Dispose()
+		s.w = nil
+	}
+}
+
+// Run executes step from the session's state with full observation.
+func (s *Session) Run(step Step) (*Trans, error) {
+	w, err := s.World()
+	if err != nil {
+		return nil, err
+	}
+	t := &Trans{Async: s.Async, Hist: s.Hist, Step: step, Root: w.Root, Devs: s.Devs + len(step.Fails)}
+	t.Pre = s.pre
 	t.PreTable = w.FS.Table()
 	w.FS.Before = func(c *recfs.Call) {
 		if c.Method != "Unmount" || !c.Live {
@@ -720,8 +823,12 @@ func RunTransition(scratch string, async bool, hist []Step, step Step, devsBefor
 	t.Res = w.Exec(step)
 	w.FS.Before = nil
 	t.Closed = w.Closed
+	fail := func(err error) (*Trans, error) {
+		s.Close()
+		return nil, err
+	}
 	if t.Post, err = w.Meta(); err != nil {
-		return nil, fmt.Errorf("reading metadata after the step: %w", err)
+		return fail(fmt.Errorf("reading metadata after the step: %w", err))
 	}
 	t.PostTable = w.FS.Table()
 	t.PostDirs = LsSnapshots(w.Root)
@@ -743,7 +850,15 @@ func RunTransition(scratch string, async bool, hist []Step, step Step, devsBefor
 	t.Canon = Canon(w.Root, t.Post, t.PostTable, t.Closed)
 	t.Hash = hashStr(fmt.Sprintf("%s|devs=%d", t.Canon, t.Devs))
 	t.Obs = w.Observe(t.Post)
+	s.Done(t.Res.Panic != "")
 	return t, nil
+}
+
+// RunTransition replays hist on a fresh root and executes step with full observation.
+func RunTransition(scratch string, async bool, hist []Step, step Step, devsBefore int) (*Trans, error) {
+	s := &Session{Scratch: scratch, Async: async, Hist: hist, Devs: devsBefore}
+	defer s.Close()
+	return s.Run(step)
 }
 
 // FaultCandidates are the calls of a run whose answer the environment may flip
@@ -801,6 +916,7 @@ type ExploreOpts struct {
 type Stats struct {
 	StatesByDepth []int // new states per depth (depth 0 = initial)
 	Executed      int   // transitions executed by this process
+	Replays       int   // history replays (fresh snapshotter + root) needed for them
 	Capped        bool
 }
 
@@ -834,6 +950,7 @@ func Explore(o ExploreOpts) ([]Node, Stats, error) {
 			if n.Closed {
 				continue
 			}
+			sess := &Session{Scratch: o.Scratch, Async: o.Async, Hist: n.Hist, Devs: n.Devs}
 			for _, op := range alpha {
 				var rec func(fails []string) error
 				rec = func(fails []string) error {
@@ -842,7 +959,7 @@ func Explore(o ExploreOpts) ([]Node, Stats, error) {
 						return nil
 					}
 					step := Step{Op: op, Fails: append([]string(nil), fails...)}
-					t, err := RunTransition(o.Scratch, o.Async, n.Hist, step, n.Devs)
+					t, err := sess.Run(step)
 					if err != nil {
 						return fmt.Errorf("history [%s] then %s: %w", HistString(n.Hist), step, err)
 					}
@@ -872,12 +989,16 @@ func Explore(o ExploreOpts) ([]Node, Stats, error) {
 					return nil
 				}
 				if err := rec(nil); err != nil {
+					sess.Close()
 					return all, st, err
 				}
 				if st.Capped {
+					sess.Close()
 					return all, st, nil
 				}
 			}
+			sess.Close()
+			st.Replays += sess.Replays
 		}
 		st.StatesByDepth = append(st.StatesByDepth, len(next))
 		frontier = next
